@@ -6,7 +6,8 @@
     agree (the channel's waker is armed only by a Pending answer and consumed by a send or
     close).  The first half (bounded work per poll) is a predicate on implementation traces
     (obs_c09_bounded_ok / obs_rr_c09_bounded_ok) plus the harness's spin detector. *)
-Require Import Selium.Base Selium.PubSub Selium.PubSubSpec Selium.P_PubSub.
+Require Import Selium.Base Selium.PubSub Selium.PubSubSpec Selium.P_PubSub Selium.P_PubSubPark.
+Require Import Selium.ReqRep Selium.ReqRepSpec Selium.P_ReqRep Selium.P_ReqRepOrder.
 Open Scope N_scope.
 
 Theorem c09_pubsub_no_sleep_on_undone_work : forall tr0 s0 seg s1 r,
@@ -18,3 +19,17 @@ Proof.
   intros tr0 s0 seg s1 r H0. apply quiescent_poll. exact (inv_run tr0 _ _ inv_init H0).
 Qed.
 Print Assumptions c09_pubsub_no_sleep_on_undone_work.
+
+(** neither router ever returns Pending without a registered waker: whenever a poll is about to
+    return Pending, a peer sink holds the task's waker (the router is blocked on that sink), or
+    the registration channel does (it was polled to Pending in this very poll).  This is what the
+    repaired defect D20 violated: parking on publisher / requestor streams alone, channel unarmed. *)
+Theorem c09_pubsub_never_parks_unarmed : forall tr s, run init tr = Some s -> ctl s = PReturn false ->
+  (exists k, is_armed (SSink k) (armed s) = true) \/ h_armed s = true.
+Proof. exact ps_never_parks_unarmed. Qed.
+Print Assumptions c09_pubsub_never_parks_unarmed.
+
+Theorem c09_reqrep_never_parks_unarmed : forall tr s, rrun rinit tr = Some s -> rctl s = RReturn false ->
+  (exists l, is_armed (SSink l) (rarmed s) = true) \/ rh_armed s = true.
+Proof. exact rr_never_parks_unarmed. Qed.
+Print Assumptions c09_reqrep_never_parks_unarmed.
